@@ -1233,3 +1233,12 @@ Qed.
 
 Lemma default_is_crc32 : DEFAULT_CHECKSUM_ALGORITHM = "CRC32".
 Proof. vm_compute. reflexivity. Qed.
+
+(** * Sequences of transfers: routing depends on the current call only *)
+Lemma route_seq_local : forall pre post m n d,
+  nth_error (route_seq (pre ++ (m, n, d) :: post)) (List.length pre) = Some (route m n d).
+Proof.
+  intros pre post m n d. unfold route_seq. rewrite map_app.
+  rewrite nth_error_app2 by (rewrite map_length; apply le_n).
+  rewrite map_length, Nat.sub_diag. reflexivity.
+Qed.
